@@ -943,13 +943,25 @@ fn check_assign(d: &Doc, a: &Assign, u: &mut Src, st: &mut Stats) -> Result<(), 
 
 // ---------------------------------------------------------------- CLI sample
 
+static TIMEOUTS: std::sync::atomic::AtomicU64 = std::sync::atomic::AtomicU64::new(0);
+static FIRST_TIMEOUT: std::sync::Mutex<Option<String>> = std::sync::Mutex::new(None);
+
 fn cli_lines(args: &[&str], file: &std::path::Path) -> Result<Vec<J>, String> {
     let f = file.to_string_lossy().to_string();
     let mut a: Vec<&str> = vec!["jq", "-c"];
     a.extend_from_slice(args);
     a.push(&f);
-    let o = cli::run(&a, None);
+    let mut o = cli::run(&a, None);
     if o.timed_out {
+        // a loaded machine can starve one spawn past the watchdog: try once more
+        o = cli::run(&a, None);
+    }
+    if o.timed_out {
+        TIMEOUTS.fetch_add(1, std::sync::atomic::Ordering::Relaxed);
+        let mut g = FIRST_TIMEOUT.lock().unwrap();
+        if g.is_none() {
+            *g = Some(format!("args {:?} input {:?}", args, String::from_utf8_lossy(&std::fs::read(file).unwrap_or_default()).chars().take(600).collect::<String>()));
+        }
         return Err("INFRA: timed out".into());
     }
     if !o.ok() {
@@ -1267,6 +1279,11 @@ pub fn run(cx: &mut Ctx) {
             |u, st| check_cli(u, st),
         );
         req(cx, "cli-sample", "nontrivial", 20);
+        let t = TIMEOUTS.load(std::sync::atomic::Ordering::Relaxed);
+        if t > 0 {
+            let first = FIRST_TIMEOUT.lock().unwrap().clone().unwrap_or_default();
+            cx.infra(format!("{} CLI spawns hit the 20 s watchdog (inconclusive); first: {}", t, first));
+        }
     } else {
         cx.infra(format!("CLI binary not found at {}", cli::cli_path()));
     }
